@@ -129,7 +129,7 @@ func structFieldName(t types.Type, i int) string {
 		t = p.Elem()
 	}
 	if s, ok := t.Underlying().(*types.Struct); ok && i < s.NumFields() {
-		return s.Field(i).Name()
+		return core.RefName(s.Field(i))
 	}
 	return "?"
 }
@@ -378,7 +378,7 @@ func paramName(fn *types.Func, i int) string {
 		i--
 	}
 	if i < sig.Params().Len() {
-		return "parameter " + sig.Params().At(i).Name()
+		return "parameter " + core.RefName(sig.Params().At(i))
 	}
 	return fmt.Sprintf("parameter #%d", i)
 }
@@ -410,7 +410,7 @@ func setAlgebraEffects(p *core.Program, r *core.Report, pre string, withD bool) 
 		allFields := map[string]bool{}
 		st := nt.Underlying().(*types.Struct)
 		for i := 0; i < st.NumFields(); i++ {
-			allFields[st.Field(i).Name()] = true
+			allFields[core.RefName(st.Field(i))] = true
 		}
 		for _, m := range p.Methods(core.PkgCommon, tn) {
 			s := sums[m.Obj]
@@ -461,7 +461,7 @@ func setAlgebraEffects(p *core.Program, r *core.Report, pre string, withD bool) 
 					"pointer-like results are fresh", "the result aliases the structure of "+strings.Join(ra, ", "))
 			}
 			// C11-b deep copy: Copy reads every field of its receiver
-			if m.Obj.Name() == "Copy" {
+			if core.RefName(m.Obj) == "Copy" {
 				got := s.FieldReads[0]
 				missing := []string{}
 				for f := range allFields {
